@@ -214,6 +214,15 @@ pub fn f4_bytes(rng: &mut Rng, name: &str) -> Def {
                 }
                 def.push(Pat::new(PatKind::Regex, Lit::b(&data), 0));
             }
+            2 if rng.chance(1, 5) => {
+                // adjacent classes with one continuation: p[lo-k]s | p[k+1-hi]s, union touching 0x00 or 0xFF
+                let k = *rng.pick(&[0x1fu8, 0x2f, 0x39, 0x7e, 0x7f, 0x80, 0xbf, 0xc1, 0xdf, 0xf4]);
+                let (lo, hi) = if rng.chance(1, 2) { (0x00u8, k.saturating_add(rng.range(1, 40) as u8).max(k + 1)) } else { (k.saturating_sub(rng.range(1, 40) as u8), 0xffu8) };
+                let pre = rng.pick_str(&["a", "#", ""]);
+                let suf = rng.pick_str(&["b", "!", ""]);
+                let text = format!("{pre}[\\x{lo:02x}-\\x{k:02x}]{suf}|{pre}[\\x{:02x}-\\x{hi:02x}]{suf}", k + 1);
+                def.push(Pat::new(PatKind::Regex, Lit::b(text.as_bytes()), 0).prio(9));
+            }
             2 if rng.chance(1, 4) => {
                 // binary tags: single bytes around table-size boundaries, optionally behind a common prefix
                 let pool = [0x00u8, 0x01, 0x3F, 0x40, 0x7E, 0x7F, 0x80, 0x81, 0xBF, 0xC0, 0xFE, 0xFF];
@@ -954,6 +963,11 @@ pub fn f7_curated() -> Vec<Def> {
     mk(true, vec![Pat::regex("(?m)b(\\n$)*", 0), Pat::regex("a", 0), Pat::token("\n", 0)]);
     mk(true, vec![Pat::regex("a(-(?-u:\\B))*", 0), Pat::regex("-", 0).prio(1), Pat::regex("[0-9]", 0)]);
     mk(false, vec![Pat::regex("k( (?-u:\\B))+", 0), Pat::regex(" ", 0).prio(1), Pat::regex("k", 0).prio(1)]);
+    // two alternatives with ADJACENT byte classes and the same continuation (edges merged by de-duplication)
+    mk(true, vec![Pat::regex("#[\\x00-\\x1f]!|#[\\x20-\\x7e]!", 0), Pat::regex("[a-z]+", 0)]);
+    mk(false, vec![Pat::new(PatKind::Regex, Lit::b(b"a[\\x00-\\x7f]b|a[\\x80-\\xff]b"), 0), Pat::regex("[0-9]", 0)]);
+    mk(false, vec![Pat::new(PatKind::Regex, Lit::b(b"x[\\x80-\\xbf]y|x[\\xc0-\\xff]y"), 0), Pat::regex("z", 0)]);
+    mk(false, vec![Pat::new(PatKind::Regex, Lit::b(b"q[\\x00-\\x2f]|q[\\x30-\\x39]"), 0).prio(5), Pat::regex("q", 0).prio(1)]);
     // binary tag lexers: more than two edges in the root, the highest byte with an edge on a table-size boundary
     mk(false, vec![Pat::new(PatKind::Token, Lit::b(b"\x00"), 0), Pat::new(PatKind::Token, Lit::b(b"\x01"), 0), Pat::new(PatKind::Token, Lit::b(b"\x02"), 0), Pat::new(PatKind::Token, Lit::b(b"\x7f"), 0), Pat::new(PatKind::Token, Lit::b(b"\x80"), 0)]);
     mk(false, vec![Pat::new(PatKind::Token, Lit::b(b"\x01"), 0), Pat::new(PatKind::Token, Lit::b(b"\x3f"), 0), Pat::new(PatKind::Token, Lit::b(b"\x40"), 0), Pat::new(PatKind::Regex, Lit::b(b"[\x10-\x20]+"), 0)]);
